@@ -813,6 +813,15 @@ fn c12(c: &mut Ctx) {
 fn c13(c: &mut Ctx) {
     let n = c.vol(300, 15.0);
     chains(c, n, Flavor::General);
+    // equality probes: same moves from a different start; reversible cycles from saturated counters
+    let m = c.vol(150, 15.0);
+    for _ in 0..m {
+        let p = start_pos(&mut c.rng, &mut c.pool);
+        c.pos(&p);
+        let s = chaingen::gen_eq_probe(&mut c.rng, &p);
+        c.st.chain(&s.steps, s.final_len, &s.obs);
+        c.case("chain", &s.line);
+    }
 }
 
 fn c14(c: &mut Ctx) {
